@@ -77,6 +77,13 @@ func (g *G) mappable(a *m.Attr) (path, query, header, cookie bool) {
 		cookie = false
 	}
 	// cookie values are limited to cookie-octets by HTTP (net/http drops other bytes)
+	if f := MergedValidation(g.d, a).Format; f != "" && cookie {
+		for _, v := range Formats[f].Valid {
+			if !cookieSafe(v) {
+				cookie = false
+			}
+		}
+	}
 	for _, e := range MergedValidation(g.d, a).Enum {
 		if e.K == "string" && !cookieSafe(e.S) {
 			cookie = false
@@ -520,6 +527,11 @@ func (g *G) mapObjectResult(meth *m.Method) {
 				if !in {
 					canHeader, canCookie = false, false
 				}
+			}
+		}
+		if canHeader && g.d.Underlying(f.Attr) == m.Array {
+			if v := MergedValidation(g.d, f.Attr); v.MinLen != nil && *v.MinLen >= 2 && g.avoid("C03-response-header-array-not-split") {
+				canHeader = false
 			}
 		}
 		opts := []string{"body", "body", "body"}
